@@ -1,16 +1,18 @@
 #!/bin/sh
-# tools/seed_import.sh C02 [name]  : confirm a sub-agent's seeded change in its scratch worktree and file it under seeded/
-id=$1; name=${2:-$1}
-wt=/tmp/wt_$id; sd=/tmp/seed_$id; out=/verif/seeded/$name
+# tools/seed_import.sh C02 [name] [round]  : confirm a sub-agent's seeded change in its scratch worktree and file it under seeded/
+id=$1; name=${2:-$1}; rnd=${3:-}
+wt=/tmp/wt${rnd}_$id; sd=/tmp/seed${rnd}_$id; out=/verif/seeded/$name
 [ -s $sd/patch.diff ] || { echo "no patch for $id"; exit 2; }
 mkdir -p $out
 cp $sd/patch.diff $out/patch.diff; cp $sd/demo.py $out/demo.py 2>/dev/null; cp $sd/meta.json $out/meta.json 2>/dev/null
 cd $wt || exit 2
-git diff > /tmp/seed_$id/now.diff
-cmp -s /tmp/seed_$id/now.diff $sd/patch.diff || echo "NOTE: worktree diff differs from patch.diff"
+git diff > $sd/now.diff
+cmp -s $sd/now.diff $sd/patch.diff || echo "NOTE: worktree diff differs from patch.diff"
 /venv/bin/python $sd/demo.py > $out/demo_with.txt 2>&1; w=$?
 git stash -q; /venv/bin/python $sd/demo.py > $out/demo_without.txt 2>&1; wo=$?; git stash pop -q
-t=$(/venv/bin/python -m pytest -q -p no:cacheprovider --timeout=600 -n 6 --no-cov --deselect test/test_interface.py::test_version_update_pypi 2>&1 | grep -v conda | tail -1)
+td=$(mktemp -d /var/tmp/seedtmp.XXXXXX)
+t=$(TMPDIR=$td /venv/bin/python -m pytest -q -p no:cacheprovider --timeout=600 -n 6 --no-cov --deselect test/test_interface.py::test_version_update_pypi 2>&1 | grep -v conda | tail -1)
+rm -rf $td
 echo "$name demo_with=$w demo_without=$wo tests: $t"
 /venv/bin/python - "$out" "$w" "$wo" "$t" <<'PY'
 import json,sys,os
